@@ -515,18 +515,22 @@ class Node(FastTypedDict):
 
                 # make sure the selected cores exist, are not down, and
                 # occupancy is compatible with the request
+                seen = dict()
                 for ro in cores:
-                    assert ro.index < len(self.cores)
+                    assert 0 <= ro.index < len(self.cores)
+                    seen[ro.index] = seen.get(ro.index, 0.0) + ro.occupation
                     ro_available = BUSY - self.cores[ro.index].occupation
-                    assert ro_available >= ro.occupation
+                    assert ro_available >= seen[ro.index]
                   # # DOWN check is covered by occupancy check
                   # assert self.cores[ro.index].occupation is not DOWN, \
                   #         'core %d is down' % ro.index
 
+                seen = dict()
                 for ro in gpus:
-                    assert ro.index < len(self.gpus)
+                    assert 0 <= ro.index < len(self.gpus)
+                    seen[ro.index] = seen.get(ro.index, 0.0) + ro.occupation
                     ro_available = BUSY - self.gpus[ro.index].occupation
-                    assert ro_available >= ro.occupation
+                    assert ro_available >= seen[ro.index]
                   # # DOWN check is covered by occupancy check
                   # assert self.gpus[ro.index].occupation is not DOWN, \
                   #         'gpu %d is down' % ro.index
